@@ -77,7 +77,7 @@ def bytes_of(src, off, n):
 
 def run_of_bytes(v, n):
     """(source, offset) when v is an array of n consecutive symbolic bytes of one source"""
-    if v is None or v[0] != "arr" or len(v[1]) != n:
+    if v is None or v[0] != "arr" or len(v[1]) != n or n == 0:
         return None
     e = v[1]
     if e[0][0] != "byte":
@@ -93,6 +93,8 @@ def describe(v):
     """canonical description of a hashed / absorbed input"""
     if v is None:
         return ("?",)
+    if v[0] == "arr" and not v[1]:
+        return ("lit", b"")
     if v[0] == "arr":
         r = run_of_bytes(v, len(v[1]))
         if r:
@@ -384,6 +386,9 @@ class BqModels(Models):
         if S(r"(^|::)MontgomeryPoint::mul_base$") and args:
             self.mont_muls.append((("basepoint",), self.as_sp(D(0))))
             return ("mpt", ("basepoint",), self.as_sp(D(0)))
+        if S(r"(^|::)MontgomeryPoint::(to_bytes|as_bytes)$") and args and D(0)[0] == "mpt":
+            b = ("mbytes", D(0))
+            return ip.intern_const(st, b) if re.match(r"^&", dty) else b
         if S(r"(^|::)EdwardsPoint::to_montgomery$") and args and self.as_pl(ip, D(0)) is not None:
             return ("mpt", ("to_montgomery", self.as_pl(ip, D(0))), sconst(1))
         if S(r"BasepointTable>::mul_base$|EdwardsBasepointTable\w*::mul_base$") and len(args) == 2:
